@@ -272,12 +272,14 @@ def c06(tier, replay):
 @check("C16")
 def c16(tier, replay):
     return sem_check("C16", tier, replay, ["--no-ascii", "--api"], kinds_sem=("api", "first", "seq"), want=("sem", "api"),
-                     level="model_checking",
+                     level="model_checking", use_fails=lambda f: str(f.get("var", "")).startswith("api_") or f.get("var") == "accessors",
                      rule="TLC enumerates the named/duplicate-named group family F10 (plus the capture families F3, F4) and all "
                      "haystacks up to the bound; for every match of every iteration the runner records captures, group(0..n+1), groups(), "
                      "named_group(name) for every name of the pattern plus an absent one and the empty string, named_groups() and the "
                      "size hints; TLC (JudgeApi.tla) requires each to be the MatchAPI.tla function of the observed range and captures "
                      "and of the names as the specification numbers them; the captures themselves are judged against ESSem. "
+                     "The same accessor record is taken from the matches of the Pike executor and of the no_opt pipeline and must equal the "
+                     "judged one. "
                      "Non-trivial: every recorded match.",
                      assumptions=["names are compared as code point sequences"])
 
